@@ -49,7 +49,7 @@ fn run_m<const M: usize>(args: &Args, rep: &mut Report) {
         let mut maxchunks = 0usize;
         for opi in 0..args.ops {
             rep.ctx = format!("history {} op {} (seed {} shard {} M {} profile {})", it, opi, args.seed, args.shard, M, profile.name);
-            let k = gen::step(&mut s, rep, &profile);
+            let (k, _) = gen::step(&mut s, rep, &profile);
             sig = fnv(sig, k as u64);
             // coverage: fast-path situation of this op
             maxchunks = maxchunks.max(s.chunks.len());
